@@ -64,8 +64,21 @@ def seedtable():
     return '\n'.join(rows)
 
 
+def fixtable():
+    sys.path.insert(0, os.path.join(V, 'regress'))
+    import defs
+    rows = ['| id | found by | what failed | outcome |', '|---|---|---|---|']
+    for c, prop, fid, text, repl in defs.FIXED:
+        if fid.startswith('T'):
+            rows.append('| %s | %s | %s | **fixed** %s |' % (fid, prop, text.replace('|', '\\|'), c))
+    rows.append('| D73 | C06 | an eightbyte consisting only of unnamed bit-field padding takes a register (gcc/clang: NO_CLASS) | **recorded** |')
+    rows.append('| D12c | C08 | `_Alignas` on a member of a packed struct/union is ignored | **recorded** |')
+    rows.append('| D74 | C20 | a break/continue/goto that leaves a statement expression while temporaries of the enclosing expression are pushed does not release them (rsp drifts) | **recorded** |')
+    return '\n'.join(rows)
+
+
 p = os.path.join(V, 'DESIGN.md'); s = open(p).read()
-for tag, fn in (('ASBUILT', asbuilt), ('SEEDTABLE', seedtable)):
+for tag, fn in (('ASBUILT', asbuilt), ('SEEDTABLE', seedtable), ('FIXTABLE', fixtable)):
     a = '<!-- %s -->' % tag; b = '<!-- /%s -->' % tag
     if b in s:
         s = s[:s.index(a)] + a + '\n' + fn() + '\n' + b + s[s.index(b) + len(b):]
